@@ -2,7 +2,7 @@
 
 Template directives (each on its own line, introduced by `//@@`):
 
-  //@@ fn file=<path> [impl="impl X"] name=<fn> [ret=<ident>] [as=<new fn name>] [vis=keep|none]
+  //@@ fn file=<path> [impl="impl X"] name=<fn> [ret=<ident>] [as=<new fn name>] [vis=keep|none] [optional=1]
   //@@ slice file=<path> [impl="impl X"] name=<fn> (block=/re/ | start=/re/ (end=/re/ | endblock=/re/)) [raw=1]
         after=1 / before=1: the range starts after the start match / ends before the end match;
         block: the inside of the {..} that follows the match; start..end: whole lines from the start match to
@@ -297,6 +297,16 @@ class Gen:
                         else:
                             cur.append(l2)
                 gen_lo = len(out) + 1
+                if kv.get("optional"):
+                    # optional=1: a helper that the tree may not have (yet / any more); without it nothing is emitted and the
+                    # callers are checked as they stand
+                    try:
+                        self.locate_fn(kv)
+                    except ExtractError as e:
+                        if "found 0 times" in str(e):
+                            out.append("// (optional item %s not present in this tree)" % kv["name"])
+                            continue
+                        raise
                 out.extend(self.emit_item(head, kv, sec))
                 self.items[-1]["gen_lo"] = gen_lo
                 self.items[-1]["gen_hi"] = len(out)
